@@ -375,6 +375,35 @@ def ranknd(h, shape, rng, spec):
             h.read(v, a[win], e, "view", wsig, vrep)
             if rng.random() < 0.3:
                 a = h.write(da, v, a, win, e, "view", wsig, vrep, rng)
+        # the SAME view object, after the array was written through other paths (the array itself, a second view on the same
+        # window): a view is a window onto the array, not a copy of what it showed before
+        whole = tuple(slice(None) for _x in ex)
+        spellings = [slice(None), whole, Ellipsis]       # v[:], v[:, :], v[...]
+
+        def whole_reads(when, seq):
+            for e in spellings:
+                h.read(v, a[win], e, "view", wsig + (when,), dict(vrep, sequence=seq))
+            import numpy as np
+            try:
+                got = np.asarray(v)
+                buf = np.empty(a[win].shape, dtype=a.dtype)
+                v.read_direct(buf)
+                for how, g in (("np.asarray", got), ("read_direct", buf)):
+                    if g.shape != a[win].shape or not np.array_equal(g, a[win]):
+                        ctx.violation("read:view:stale_or_wrong_whole_window:%s:%s" % (how, when), dict(vrep, sequence=seq, got=g, expected=a[win]), dict(rep, op="window"))
+            except Exception as exn:
+                ctx.violation("read:view:whole_window_raises_%s:%s" % (type(exn).__name__, when), dict(vrep, error=repr(exn)[:200]), dict(rep, op="window"))
+        whole_reads("whole", "whole read")
+        a = h.write(da, da, a, None, Ellipsis, "array", sig, rep, rng)
+        whole_reads("after_write_through_array", "whole read, write through the array, whole read")
+        try:
+            v2 = da.get_slice(st, ex)
+            if v2.valid and a[win].size:
+                a = h.write(da, v2, a, win, whole, "view", wsig, vrep, rng)
+                whole_reads("after_write_through_second_view", "write through a second view, whole read through the first")
+                ctx.count("stateful_view_sequences")
+        except Exception as exn:
+            ctx.observe("second_view_not_available", repr(exn)[:100])
 
 
 def run_shard(spec, ctx):
